@@ -202,9 +202,9 @@ func (wk *worker) runScript(run int, sc script) []ev {
 		}
 	}
 	if hasUp {
-		more, cut := wk.upload(run, runDir, F, upCount, ups)
+		more, broken := wk.upload(run, runDir, F, upCount, ups)
 		evs = append(evs, more...)
-		if cut {
+		if broken {
 			hasDown = false
 		}
 	}
@@ -261,7 +261,7 @@ func (wk *worker) download(run int, runDir string, acts map[string]step) []ev {
 			act, k = s.Act, s.K
 		}
 		e := ev{"op": "dlitem", "run": run, "i": headers, "type": h.Type, "path": ints(h.Path), "hdrok": h.OK, "extra": h.Extra,
-			"act": act, "k": k, "sends": false, "prefix": -1, "follow": 0, "hdr": -1, "dlen": -1, "sfx": false, "obj": false, "rsrc": 0, "name": []int{}}
+			"act": act, "k": k, "sends": false, "prefix": -1, "follow": 0, "hdr": -1, "dlen": -1, "sfx": false, "sfxp": false, "obj": false, "rsrc": 0, "name": []int{}}
 		if !h.OK {
 			e["extra"] = len(b)
 			evs = append(evs, e)
@@ -290,6 +290,13 @@ func (wk *worker) download(run int, runDir string, acts map[string]step) []ev {
 					e["dlen"] = len(o.Data)
 					e["rsrc"] = o.RsrcLen
 					e["sfx"] = len(o.Data) <= len(src) && bytes.Equal(o.Data, src[len(src)-len(o.Data):])
+					// the entry may be the partial data of an interrupted upload (content of the name without
+					// the suffix) rather than an entry a user named *.incomplete: observe both readings
+					e["sfxp"] = e["sfx"]
+					if sp := stripInc(h.Path); sp != nil {
+						srcp := Content(keyOf(sp), len(src))
+						e["sfxp"] = len(o.Data) <= len(srcp) && bytes.Equal(o.Data, srcp[len(srcp)-len(o.Data):])
+					}
 					e["name"] = ints([]string{o.Name})[0]
 				}
 			} else {
@@ -469,7 +476,7 @@ func (wk *worker) upload(run int, runDir, F string, count int, items []step) (ev
 		}
 	}
 	evs = append(evs, wk.upend(run, F, status, wasCut, len(x.pending)))
-	return evs, wasCut || status != "done"
+	return evs, status != "done"
 }
 
 func (wk *worker) upend(run int, F, status string, cut bool, tail int) ev {
@@ -485,12 +492,16 @@ func (wk *worker) upend(run int, F, status string, cut bool, tail int) ev {
 				partial = true
 				p[len(p)-1] = strings.TrimSuffix(p[len(p)-1], ".incomplete")
 			}
-			pfx := true
+			// raw = the on-disk path; an entry named *.incomplete is reported as the partial data of the name without
+			// the suffix (path, partial, pfx) and, for the other reading, with pfxraw = the bytes belong to the raw name
+			raw := strings.Split(en.Path, "/")
+			pfx, pfxraw := true, true
 			if en.Kind == "file" {
 				got, _ := os.ReadFile(filepath.Join(F, filepath.FromSlash(en.Path)))
 				pfx = bytes.Equal(got, Content(keyOf(p), len(got)))
+				pfxraw = bytes.Equal(got, Content(keyOf(raw), len(got)))
 			}
-			snap = append(snap, ev{"path": ints(p), "kind": en.Kind, "size": int(en.Size), "partial": partial, "pfx": pfx})
+			snap = append(snap, ev{"path": ints(p), "raw": ints(raw), "kind": en.Kind, "size": int(en.Size), "partial": partial, "pfx": pfx, "pfxraw": pfxraw})
 		}
 	}
 	return ev{"op": "upend", "run": run, "status": status, "cut": cut, "exists": exists, "snap": snap, "tail": tail}
@@ -519,6 +530,16 @@ func reclaimDescriptors() {
 		runtime.GC()
 		time.Sleep(20 * time.Millisecond)
 	}
+}
+
+// stripInc returns the path with ".incomplete" removed from its last name, or nil if the name has no such suffix.
+func stripInc(p []string) []string {
+	if len(p) == 0 || !strings.HasSuffix(p[len(p)-1], ".incomplete") {
+		return nil
+	}
+	q := append([]string{}, p...)
+	q[len(q)-1] = strings.TrimSuffix(q[len(q)-1], ".incomplete")
+	return q
 }
 
 func b2i(b bool) int {
